@@ -33,6 +33,37 @@ class Facts:
                 m['crate'] = d['crate']
                 self.mir[m['path']] = m
         self.nonces = {c: d.get('nonce') for c, d in self.crates.items()}
+        self._inline_new_helpers()
+
+    def _inline_new_helpers(self):
+        """Functions that do not exist on the baseline tree (rules/refs/baseline_fns.txt) are helpers introduced by a later
+        change: every call of one is expanded in place in its callers, so that the rules see the anchored bodies as a whole
+        wherever the maintainer has drawn the function boundaries.  A new function all of whose uses could be expanded is
+        dropped from `hir` (its code is accounted for in its callers); `hir_all` keeps everything."""
+        self.hir_all = dict(self.hir)
+        self.new_fns = set()
+        base = os.path.join(os.path.dirname(os.path.abspath(__file__)), 'refs', 'baseline_fns.txt')
+        if not os.path.exists(base) or os.environ.get('LDAP3_NO_INLINE'):
+            return
+        with open(base) as fh:
+            known = {l.strip() for l in fh if l.strip() and not l.startswith('#')}
+        self.new_fns = {p for p in self.hir if p not in known}
+        if not self.new_fns:
+            return
+        pol = lambda cal: cal in self.new_fns
+        out = {}
+        for path, rec in self.hir_all.items():
+            out[path] = inlined(self, rec, pol)
+        # a new function still referenced (as a value, or recursively) after expansion stays a body of its own
+        still = set()
+        for path, rec in out.items():
+            for n, _c in walk(rec['body']):
+                if n.get('k') in ('Call', 'MethodCall') and callee_of(n) in self.new_fns and path not in self.new_fns:
+                    still.add(callee_of(n))
+                if n.get('k') == 'Path' and (n.get('inst') or n.get('def')) in self.new_fns and path not in self.new_fns:
+                    still.add(n.get('inst') or n.get('def'))
+        self.hir = {p: r for p, r in out.items() if p not in self.new_fns or p in still}
+        self.inlined_fns = sorted(self.new_fns - still)
 
     def body(self, path):
         if path not in self.hir:
@@ -309,3 +340,114 @@ if __name__ == '__main__':
                 print('=====', path)
                 print('params', [pp_pat(x) for x in h['params']])
                 print('\n'.join(pp(h['body'])))
+
+
+# ---------------------------------------------------------------------------------------
+# HIR-level inlining of helper functions
+#
+# A rule that inspects the body of an anchored function must not depend on whether a maintainer has moved
+# part of that body into a private helper.  `inlined(facts, rec, policy)` returns a copy of the body record
+# in which every call of a workspace function selected by `policy(callee_path)` is replaced by a labelled
+# block that binds the callee's parameters to the arguments and evaluates the callee's body; `return e`
+# inside the callee becomes `break 'inlined e`, `e?` carries the block as its propagation target
+# ('ret_target'), an awaited call of an async fn is replaced as a whole.  Binding ids, node ids and closure
+# defs of each inlined instance get a unique suffix, so two instances never alias.  Recursion is cut off.
+
+import copy as _copy
+
+def _rename(n, suf, ret_target, in_closure=False):
+    """Rename ids in a cloned callee body (in place)."""
+    if isinstance(n, list):
+        for x in n:
+            _rename(x, suf, ret_target, in_closure)
+        return
+    if not isinstance(n, dict):
+        return
+    k = n.get('k')
+    for key in ('id', 'bind', 'target'):
+        v = n.get(key)
+        if isinstance(v, str) and '@' not in v:
+            n[key] = v + suf
+    if k == 'Closure' and isinstance(n.get('def'), str) and '@' not in n['def']:
+        n['def'] = n['def'] + suf
+    if not in_closure:
+        if k == 'Ret':
+            n['k'] = 'Break'
+            n['target'] = ret_target
+            n['inlined_ret'] = True
+        elif k == 'Try':
+            n['ret_target'] = ret_target
+    sub_closure = in_closure or k == 'Closure'
+    for key, v in n.items():
+        if key in ('sp',):
+            continue
+        if isinstance(v, (dict, list)):
+            _rename(v, suf, ret_target, sub_closure)
+
+_inline_counter = [0]
+
+def inlined(facts, rec, policy, max_depth=4):
+    """Copy of body record `rec` with calls selected by `policy` expanded in place (see above)."""
+    rec2 = dict(rec)
+    rec2['params'] = _copy.deepcopy(rec['params'])
+    rec2['body'] = _inline_node(facts, _copy.deepcopy(rec['body']), policy, (rec['path'],), max_depth)
+    rec2['inlined'] = True
+    return rec2
+
+def _callee_rec(facts, n, policy, stack):
+    cal = callee_of(n)
+    if cal is None or cal in stack or cal not in facts.hir or not policy(cal):
+        return None, None
+    return cal, facts.hir[cal]
+
+def _expand(facts, call, cal, crec, policy, stack, depth, awaited):
+    _inline_counter[0] += 1
+    suf = '@i%d' % _inline_counter[0]
+    body = _copy.deepcopy(crec['body'])
+    params = _copy.deepcopy(crec['params'])
+    if awaited:
+        # async fn: the body record is the coroutine closure; its block is the function body
+        if body.get('k') != 'Closure':
+            return None
+        body = body['body']
+    elif body.get('k') == 'Closure' and 'async fn body' in (body.get('ty') or ''):
+        return None       # an async fn called without .await at this site: the future is a value, leave the call alone
+    blk_id = 'inl' + suf
+    _rename(body, suf, blk_id)
+    _rename(params, suf, blk_id, in_closure=True)
+    args = call_args(call)
+    stmts = []
+    for p, a in zip(params, args):
+        stmts.append({'k': 'Let', 'pat': p, 'init': a, 'sp': call.get('sp'), 'inlined_param': True})
+    inner = _inline_node(facts, body, policy, stack + (cal,), depth - 1) if depth > 0 else body
+    return {'k': 'Block', 'id': blk_id, 'sp': call.get('sp'), 'ty': inner.get('ty'), 'stmts': stmts, 'expr': inner,
+            'label': blk_id, 'inlined_from': cal, 'rules': None}
+
+def _inline_node(facts, n, policy, stack, depth):
+    if isinstance(n, list):
+        return [_inline_node(facts, x, policy, stack, depth) for x in n]
+    if not isinstance(n, dict):
+        return n
+    for key, v in list(n.items()):
+        if key == 'sp':
+            continue
+        if isinstance(v, (dict, list)):
+            n[key] = _inline_node(facts, v, policy, stack, depth)
+    k = n.get('k')
+    if depth <= 0:
+        return n
+    if k == 'Await' and n['e'].get('k') in ('Call', 'MethodCall'):
+        cal, crec = _callee_rec(facts, n['e'], policy, stack)
+        if crec is not None:
+            r = _expand(facts, n['e'], cal, crec, policy, stack, depth, awaited=True)
+            if r is not None:
+                r['ty'] = n.get('ty')
+                return r
+    if k in ('Call', 'MethodCall'):
+        cal, crec = _callee_rec(facts, n, policy, stack)
+        if crec is not None:
+            r = _expand(facts, n, cal, crec, policy, stack, depth, awaited=False)
+            if r is not None:
+                r['ty'] = n.get('ty')
+                return r
+    return n
